@@ -236,6 +236,9 @@ pub struct LfnBuffer<'a> {
 }
 
 impl<'a> LfnBuffer<'a> {
+    /// What a surrogate with no partner decodes to
+    const REPLACEMENT: &'static str = "\u{fffd}";
+
     /// Create a new, empty, LFN Buffer using the given mutable slice as its storage.
     pub fn new(storage: &'a mut [u8]) -> LfnBuffer<'a> {
         let len = storage.len();
@@ -339,6 +342,17 @@ impl<'a> LfnBuffer<'a> {
                 self.inner[self.free] = b;
             }
         }
+
+        if self.unpaired_surrogate.is_some() && self.free >= Self::REPLACEMENT.len() {
+            // We are holding back half a surrogate pair in the hope that the
+            // next chunk supplies the other half. If this turns out to be the
+            // start of the name there is no next chunk, and the lone surrogate
+            // decodes as a replacement character. Park that in the free space
+            // in front of the string (without claiming the space) so `as_str`
+            // can include it; the next `push` simply overwrites it.
+            self.inner[self.free - Self::REPLACEMENT.len()..self.free]
+                .copy_from_slice(Self::REPLACEMENT.as_bytes());
+        }
     }
 
     /// View this LFN buffer as a string-slice
@@ -348,6 +362,14 @@ impl<'a> LfnBuffer<'a> {
     pub fn as_str(&self) -> &str {
         if self.overflow {
             ""
+        } else if self.unpaired_surrogate.is_some() {
+            // The name starts with a lone surrogate - see `push`.
+            match self.free.checked_sub(Self::REPLACEMENT.len()) {
+                // we always only put UTF-8 encoded data in here
+                Some(start) => unsafe { core::str::from_utf8_unchecked(&self.inner[start..]) },
+                // no room for the replacement character: that's an overflow
+                None => "",
+            }
         } else {
             // we always only put UTF-8 encoded data in here
             unsafe { core::str::from_utf8_unchecked(&self.inner[self.free..]) }
